@@ -7,7 +7,7 @@
    key column    = recorded defect class when the frame is ill-formed in exactly
                    the recorded way, else "-" *)
 From PV Require Import Base.Text Model.SendBase Model.Send Model.SendNdp Model.SendUdp
-  Spec.SendRef Spec.SendRefUdp Spec.SendKnown.
+  Spec.SendRef Spec.SendRefUdp Spec.SendKnown Model.SendPool.
 Open Scope string_scope.
 Open Scope N_scope.
 
@@ -619,6 +619,23 @@ Definition pool_line (args : list string) : string :=
   join "," (map (fun t => if existsb (String.eqb t) want then t else ("UNMODELLED:" ++ t)%string) args
             ++ map (fun t => ("MISSING:" ++ t)%string) (filter (fun t => negb (existsb (String.eqb t) args)) want))%list.
 
+(* logger census (`logs` case): every package-level fastlog logger of the library.  The log level is a mode, not an
+   input of the model (C07_wire_independent_of_log_level): the harness runs every case at the level error / info /
+   debug derived from its case line, setting all of these together. *)
+Definition send_logs : list (string * string) :=
+  [(".:Logger", "rotated");
+   ("handlers/arp_spoofer:Logger", "rotated");
+   ("handlers/dhcp4_spoofer:Logger", "rotated");
+   ("handlers/dns_naming:Logger", "rotated");
+   ("handlers/dns_naming:LoggerMDNS", "rotated");
+   ("handlers/icmp_spoofer:Logger4", "rotated (its package sends only through the session functions)");
+   ("handlers/icmp_spoofer:Logger6", "rotated (its package sends only through the session functions)");
+   ("handlers/dns_naming:ssdpLogger", "unexported, stays at info: used on the receive side only (ssdp:alive / byebye)")].
+Definition logs_line (args : list string) : string :=
+  let want := map fst send_logs in
+  join "," (map (fun t => if existsb (String.eqb t) want then t else ("UNMODELLED:" ++ t)%string) args
+            ++ map (fun t => ("MISSING:" ++ t)%string) (filter (fun t => negb (existsb (String.eqb t) args)) want))%list.
+
 Fixpoint split_steps (toks cur : list string) : list (list string) :=
   match toks with
   | [] => [rev cur]
@@ -649,11 +666,34 @@ Definition seq_line (args : list string) : string :=
        (if forallb (fun o => String.eqb (snd (fst o)) "-") outs then "-" else join ";" sps)
        (match keys with k :: _ => k | [] => "-" end).
 
+Definition show_write (w : list string * bool) : string :=
+  ((match fst w with [] => "none" | f :: _ => f end) ++ (if snd w then "/err=injected" else "/err=nil") ++ ";")%string.
+(* [conn_write] of Model/SendPool.v on the shown frame: first call with a failing write, then the same call again *)
+Definition conn_write_shown (fails : bool) (fr : string) : string :=
+  (show_write (conn_write fails [fr]) ++ fr)%string.
+
+(* wfail <error> <case line>: the first write of the call fails.  Model (Model/SendPool.v, conn_write): the error is
+   returned and nothing reaches the wire; the same call afterwards sends its frame as if nothing had happened. *)
+Definition wfail_line (args : list string) : string :=
+  match args with
+  | _ :: k :: a =>
+      match Text.split (ascii_of_N 9) (dispatch_one k a) with
+      | [m; sp; key] =>
+          if String.eqb m "none" || String.eqb m BADARGS || existsb (fun c => Ascii.eqb c ","%char) (list_ascii_of_string m)
+          then BADARGS
+          else out3 (conn_write_shown true m) (if String.eqb sp "-" then "-" else conn_write_shown true sp) key
+      | _ => BADARGS
+      end
+  | _ => BADARGS
+  end.
+
 Definition dispatch_line (l : string) : string :=
   match words l with
   | k :: args => if String.eqb k "sites" then out3 (join "," (map show_site args)) "-" "-"
                  else if String.eqb k "pool" then out3 (pool_line args) "-" "-"
                  else if String.eqb k "seq" then seq_line args
+                 else if String.eqb k "wfail" then wfail_line args
+                 else if String.eqb k "logs" then out3 (logs_line args) "-" "-"
                  else if String.eqb k "reach" then out3 (reach_line args) "-" "-"
                  else dispatch_one k args
   | [] => BADARGS
